@@ -171,6 +171,7 @@ package message1_1
 //@ extern func (*github.com/ipld/go-ipld-prime/node/bindnode/registry.BindnodeRegistry).TypeFromNode
 //@ func message1_1.FromNet {C12,C15}
 //@   after BindnodeRegistry.TypeFromReader [decodes-into-prototype] $r1 == nil ==> dyntype_is($r0, *TransferMessage1_1) && $r0.(*TransferMessage1_1) != nil
+//@   ensures [dag-cbor] calls(BindnodeRegistry.TypeFromReader) == 1 && all(BindnodeRegistry.TypeFromReader, $1 == r && isfunc($3, dagcbor.Decode)) -- one decode of the caller's stream with the DAG-CBOR decoder (links allowed)
 //@   ensures [decode-error] ret(BindnodeRegistry.TypeFromReader, 1) != nil ==> err != nil && result0 == nil
 //@   ensures [well-formed-accepted] calls(BindnodeRegistry.TypeFromReader) == 1 && ret(BindnodeRegistry.TypeFromReader, 1) == nil &&
 //@       ((*ret(BindnodeRegistry.TypeFromReader, 0).(*TransferMessage1_1)).IsRequest ? (*ret(BindnodeRegistry.TypeFromReader, 0).(*TransferMessage1_1)).Request != nil :
@@ -202,3 +203,23 @@ package message1_1
 //@   ensures [same-message] err == nil ==> result0 != nil && dyntype_is(result0, *TransferRequest1_1) && result0.(*TransferRequest1_1) == trq
 //@ func (*message1_1.TransferResponse1_1).MessageForProtocol {C12,C15}
 //@   ensures [same-message] err == nil ==> result0 != nil && dyntype_is(result0, *TransferResponse1_1) && result0.(*TransferResponse1_1) == trsp
+
+//@ extern func github.com/ipld/go-ipld-prime.EncodeStreaming
+//@ extern func (github.com/ipld/go-ipld-prime/node/bindnode/registry.BindnodeRegistry).TypeToWriter
+//@ func (*message1_1.TransferRequest1_1).ToNet {C12,C15}
+//@   ensures [dag-cbor] calls(EncodeStreaming) == 1 && all(EncodeStreaming, $0 == w && isfunc($2, dagcbor.Encode)) && err == ret(EncodeStreaming, 0)
+//@       -- the network bytes of a request are the canonical DAG-CBOR encoding (links allowed, map keys sorted) of its envelope, written to w; the encoder's error is the result
+//@ func (*message1_1.TransferResponse1_1).ToNet {C12,C15}
+//@   ensures [dag-cbor] calls(EncodeStreaming) == 1 && all(EncodeStreaming, $0 == w && isfunc($2, dagcbor.Encode)) && err == ret(EncodeStreaming, 0)
+//@ func (*message1_1.TransferMessage1_1).ToNet {C12,C15}
+//@   ensures [dag-cbor] calls(BindnodeRegistry.TypeToWriter) == 1 && all(BindnodeRegistry.TypeToWriter, $2 == w && isfunc($3, dagcbor.Encode)) && err == ret(BindnodeRegistry.TypeToWriter, 0)
+//@ extern func (github.com/ipld/go-ipld-prime/node/bindnode/registry.BindnodeRegistry).TypeToNode
+//@ func (*message1_1.TransferRequest1_1).toIPLD {C12}
+//@   ensures [envelope] calls(BindnodeRegistry.TypeToNode) == 1 && dyntype_is(arg(BindnodeRegistry.TypeToNode, 1), *TransferMessage1_1) &&
+//@       (*arg(BindnodeRegistry.TypeToNode, 1).(*TransferMessage1_1)).IsRequest && (*arg(BindnodeRegistry.TypeToNode, 1).(*TransferMessage1_1)).Request == trq &&
+//@       (*arg(BindnodeRegistry.TypeToNode, 1).(*TransferMessage1_1)).Response == nil && result == ret(BindnodeRegistry.TypeToNode, 0)
+//@       -- a request travels in an envelope that announces a request and carries exactly this request
+//@ func (*message1_1.TransferResponse1_1).toIPLD {C12}
+//@   ensures [envelope] calls(BindnodeRegistry.TypeToNode) == 1 && dyntype_is(arg(BindnodeRegistry.TypeToNode, 1), *TransferMessage1_1) &&
+//@       !(*arg(BindnodeRegistry.TypeToNode, 1).(*TransferMessage1_1)).IsRequest && (*arg(BindnodeRegistry.TypeToNode, 1).(*TransferMessage1_1)).Response == trsp &&
+//@       (*arg(BindnodeRegistry.TypeToNode, 1).(*TransferMessage1_1)).Request == nil && result == ret(BindnodeRegistry.TypeToNode, 0)
